@@ -5,6 +5,7 @@ package checks
 var All = map[string]func(tier string) int{
 	"C01": C01,
 	"C02": C02,
+	"C03": C03,
 	"C05": C05,
 	"C06": C06,
 	"C07": C07,
